@@ -93,13 +93,19 @@ var familyProtocol = map[string]proto.Protocol{
 	"session-signed-1.21-noforce": version.Minecraft_1_21.Protocol,
 }
 
-var treeNames = []string{"none", "a", "a{b}", "a[perm]", "a{b[perm]}", "a(non-exec){b}", "a(run-error)", "a{<int>}", "a[perm]{b}+alias:al"}
+var treeNames = []string{"none", "a", "a{b}", "a[perm]", "a{b[perm]}", "a(non-exec){b}", "a(run-error)", "a{<int>}", "a[perm]{b}+alias:al", "a[perm](non-exec){b}+alias:al"}
 
 const aliasTree = 8
 
+// aliasGroupTree: the aliased root literal is a pure GROUP (requirement, children, no executor of its own) - the other
+// value of "has an executor", which Manager.shallowCopy reads next to the requirement.
+const aliasGroupTree = 9
+
+func isAliasTree(t int) bool { return t == aliasTree || t == aliasGroupTree }
+
 // incompleteLines: command lines that match a registered path completely but end on a node without an
 // executable (brigadier reports these as "unknown or incomplete command").
-var incompleteLines = map[int]map[string]bool{5: {"a": true}}
+var incompleteLines = map[int]map[string]bool{5: {"a": true}, aliasGroupTree: {"a": true, "al": true}}
 
 var lines = []string{"a", "a b", "a x", "a 5", "b", "", " a", "a ", "A", "a  b", "/a", "/a b", "//b"}
 
@@ -161,6 +167,10 @@ func registerTree(m *command.Manager, t int, rr *runRec) (topNeedsPerm map[strin
 		topNeedsPerm["a"] = false
 	case aliasTree:
 		m.RegisterWithAliases(brigodier.Literal("a").Requires(requireUse).Executes(rr.cmd("a", nil)).Then(brigodier.Literal("b").Executes(rr.cmd("a b", nil))), "al")
+		topNeedsPerm["a"] = true
+		topNeedsPerm["al"] = true
+	case aliasGroupTree:
+		m.RegisterWithAliases(brigodier.Literal("a").Requires(requireUse).Then(brigodier.Literal("b").Executes(rr.cmd("a b", nil))), "al")
 		topNeedsPerm["a"] = true
 		topNeedsPerm["al"] = true
 	default:
@@ -400,12 +410,12 @@ func forEachC22(thorough bool, f func(c c22case)) {
 			continue
 		}
 		for t := range treeNames {
-			if skipNew && t == aliasTree {
+			if skipNew && isAliasTree(t) {
 				continue
 			}
 			for _, perm := range []bool{false, true} {
 				lns := lines
-				if (t == aliasTree || t == 0) && !skipNew {
+				if (isAliasTree(t) || t == 0) && !skipNew {
 					lns = append(append([]string(nil), lines...), aliasLines...)
 				}
 				if !skipNew {
